@@ -17,7 +17,7 @@ from ..flow import get_flow, show, strip_sites
 from ..model import AnalysisError, first_line, src_of
 from ..typestate import explore
 
-CONTRACT_EVENTS = ("PRE", "SNAP", "POST", "INV")
+CONTRACT_EVENTS = ("PRE", "SNAP", "POST", "INV", "ERRMSG")
 MARKER_REGIONS = ("checker[sync]", "checker[async]", "inv[init]", "inv[sync]", "inv[async]")
 # the ``__new__`` wrapper has no marker operations today; the rules on giving the marker back apply to it as soon as it gets any
 MARKER_REGIONS_ALL = MARKER_REGIONS + ("inv[new]",)
